@@ -33,6 +33,13 @@ class BlockingErr(Exception):
         return (BlockingErr, (self.code,))
 
 
+class TwoArgErr(Exception):
+    """an exception class that cannot be built from a single argument"""
+    def __init__(self, code, extra):
+        super().__init__(code, extra)
+        self.code = code
+
+
 def _hold(ready):
     ready.set()
     time.sleep(60)
@@ -55,7 +62,19 @@ def target(kind, arg, phase, ready):
         sys.exit()
     if kind == 3:
         sys.exit(arg)
-    sys.exit('bye')
+    if kind == 4:
+        sys.exit('bye')
+    if kind == 8:
+        raise TwoArgErr(arg, 'x')
+    # endings in which the child is gone without having delivered its outcome
+    import threading
+    if kind == 5:
+        e = ChildErr(arg)
+        e.lock = threading.Lock()        # cannot be pickled: the child's second send fails
+        raise e
+    if kind == 6:
+        return threading.Lock()          # cannot be pickled: the first send fails
+    os._exit(arg)
 
 
 def thread_target(kind, arg):
@@ -63,6 +82,8 @@ def thread_target(kind, arg):
         return arg
     if kind == 1:
         raise ChildErr(arg)
+    if kind == 8:
+        raise TwoArgErr(arg, 'x')
     if kind == 2:
         sys.exit()
     if kind == 3:
@@ -75,7 +96,7 @@ def classify(outcome):
     how, x = outcome
     if how == 'ret':
         return [1, 0, 0] if x is None else [1, 1, x]
-    if isinstance(x, (ChildErr, BlockingErr)):
+    if isinstance(x, (ChildErr, BlockingErr, TwoArgErr)):
         return [2, 2, x.code]
     if isinstance(x, SystemExit):
         return [2, 3, x.code] if isinstance(x.code, int) else [2, 4, 0]
@@ -158,6 +179,8 @@ def run_process_case(c):
     # agreement
     problems = []
     r, j, e = res['result'], res['join'], res['exception']
+    if r[0] == 'ret' and obs['exitcode'] not in (0, -15):
+        problems.append(f'result() returned {r[1]!r:.40} although the process ended with exit code {obs["exitcode"]}')
     if r[0] == 'ret':
         if j[0] != 'ret':
             problems.append(f'result() returned but join() raised {j[1]!r}')
@@ -191,9 +214,12 @@ def run_thread_case(c):
     t = Thread(target=thread_target, args=(c['kind'], c['arg']))
     t.handle_exception = staticmethod(lambda exc: None)
     t.start()
-    res = {'join': call(t.join, 10), 'result': call(t.result, 10), 'exception': call(t.exception, 10)}
+    res = {'join': call_wd(t.join, 10)[:2], 'result': call_wd(t.result, 10)[:2], 'exception': call_wd(t.exception, 10)[:2]}
     d, nd = wait([t], timeout=10)
     obs = {'future': classify(res['result']), 'done': t.done(), 'problems': []}
+    for a, v in res.items():
+        if v[0] == 'exc' and 'WATCHDOG' in repr(v[1]):
+            obs['problems'].append(f'{a}() of the finished thread did not return within 25 s')
     if len(d) != 1 or len(list(as_completed([t], timeout=10))) != 1:
         obs['problems'].append('wait/as_completed did not report the finished thread')
     r, j, e = res['result'], res['join'], res['exception']
@@ -213,6 +239,8 @@ def gen_cases(rng, n):
         for sg in (15, 9, 10):
             for k, a in (endings if n >= 60 else [rng.choice(endings), rng.choice(endings)]):
                 cases.append({'kind': k, 'arg': a, 'phase': ph, 'sig': sg})
+    for k, a in ((5, 2), (6, 0), (7, 3), (7, 0), (7, 1), (8, 6)):
+        cases.append({'kind': k, 'arg': a, 'phase': 'none', 'sig': 15})
     for sg in (15, 9):
         cases.append({'kind': 1, 'arg': 5, 'phase': 'between', 'sig': sg})
     for (k, a) in ((0, 8), (1, 6)):
@@ -228,9 +256,13 @@ def gen_cases(rng, n):
             k, a = rng.choice(endings)
             cases.append({'kind': k, 'arg': a, 'phase': 'during', 'sig': sg, 'thread': False, 'gap': 0, 'jt': None,
                           'first': ['join', 'result', 'exception', 'join'][i % 4]})
-    for k, a in endings:
+    for k, a in endings + [(8, 6)]:
         cases.append({'kind': k, 'arg': a, 'phase': 'none', 'sig': 15, 'thread': True, 'first': 'join'})
-    rng.shuffle(cases)
+    # every ending without a kill is run in every tier; the kill cases are sampled
+    base = [c for c in cases if c['phase'] == 'none']
+    rest = [c for c in cases if c['phase'] != 'none']
+    rng.shuffle(rest)
+    cases = base + rest
     return cases[:n] if n < len(cases) else cases
 
 
@@ -297,7 +329,7 @@ ASSUME = ['real processes cannot be scheduled: each case is one real run with a 
 
 def check(tier, seed, replay=None):
     from harness import core
-    part = core.Part('proc', 'harness.props.c12', 'gen', 40, 100, None, None,
+    part = core.Part('proc', 'harness.props.c12', 'gen', 60, 100, None, None,
                      lambda r: (r['oracle'], None) if r['oracle'] else None,
                      lambda r: r['cfg']['phase'] != 'none' or r['cfg']['kind'] != 0,
                      key=lambda r: json.dumps(r['cfg'], sort_keys=True),
